@@ -19,7 +19,7 @@ PROP = dict(
 )
 
 CLAIM = dict(
-    text="Lean theorem C20.ink_in_box: for every string without line feed, every font number, mode, spacing, size h>=0 and any v, any canvas, bounding box and cursor, with wrapping off, RenderText changes no stored bit outside clip ∩ [cx, cx+StrWidth+h) x [cy, cy+v*cellHeight) (= LineHeight by lineHeight_eq); drawChar_index_in_range / font_tables_sized / glyph_facts: over the font tables regenerated from /repo, no table index used for any byte is out of range. Translation and scaling are checked on the real renderer for every byte x font x mode and random strings (model = implementation, and the Spec predicate on the implementation's three renderings); their general theorems are not yet proved. Known finding C20.scale_with_spacing (scale_with_spacing_counterexample): with extra character spacing > 0, size h > 1 and >= 2 glyphs the scaling clause is false of the code.",
-    note=TB + "Translation/scale clauses rest on the correspondence (exhaustive over single glyphs, sampled over strings).",
+    text="Lean theorem C20.ink_in_box: for every string without line feed, every font number, mode, spacing, size h>=0 and any v, any canvas, bounding box and cursor, with wrapping off, RenderText changes no stored bit outside clip ∩ [cx, cx+StrWidth+h) x [cy, cy+v*cellHeight) (= LineHeight by lineHeight_eq); drawChar_index_in_range / font_tables_sized / glyph_facts: over the font tables regenerated from /repo, no table index used for any byte is out of range. C20.translation / translation_fits: on a blank canvas with wrapping off and background = text colour, when no glyph is rejected by DrawChar's whole-glyph off-canvas test (implied by the text box lying on the canvas, noEarly_of_fits), the rendering at cursor (cx+dx, cy+dy) read at (X+dx, Y+dy) equals the rendering at (cx, cy) read at (X, Y), for every string, font, mode, spacing and size. C20.scale_zero_spacing: with extra spacing 0, the size-(h,v) rendering read at (cx+h*I+p, cy+v*J+q), 0<=p<h, 0<=q<v, equals the size-1 rendering read at (cx+I, cy+J). Both are also checked on the real renderer for every byte x font x mode and random strings (model = implementation, and the Spec predicate on the implementation's three renderings). Known finding C20.scale_with_spacing (scale_with_spacing_counterexample): with extra character spacing > 0, size h > 1 and >= 2 glyphs the scaling clause is false of the code.",
+    note=TB + "Translation/scale theorems are about a blank canvas with background = text colour and wrapping off; clipped/partially off-canvas renderings are covered by ink_in_box and the correspondence only.",
     technique="Lean 4 proof (induction over the string with generalised cursor on top of the C16 frame calculus; kernel decide over regenerated font tables) + model/implementation correspondence",
 )
